@@ -11,6 +11,7 @@ from .. import lib, ref
 from ..ref import Graph
 
 LEVEL = "exploration"
+TECHNIQUE = 'runtime monitoring: per-pixel reference model of input/target images (incl. isolated-pixel removal and pixel extension) judges process_maze_rasterized_input_target, dataset items and batches for all 8 option combinations'
 RULE = ("process_maze_rasterized_input_target(maze, opts) and RasterizedMazeDataset[i] / get_batch(idxs) compared pixel by pixel with "
         "an oracle written from the statement (input = maze picture with the path hidden and endpoints kept; target = wall except "
         "the solution pixels, endpoints coloured or open; optional isolated-pixel removal; optional 2x extension + 1-pixel wall "
